@@ -317,7 +317,9 @@ def step (s : DS) (line : String) : DS × String :=
         ({ s with a := none }, tag ++ " ;; ".intercalate (scanAllLoop call C W fuel a (freshSq abc) []))
     | _, _, _, _, _, _ => (s, "bad-op")
   | "afetch" :: _ => ({ s with a := none, ssi := none }, "unmodelled")    -- alignment databases: harness + monitor only
-  | "guessabc" :: _ => ({ s with unmodelled := true }, "unmodelled")
+  | "guessabc" :: _ => withA s fun a =>
+      let (a, st, t) := guessAlphabet a
+      ({ s with a := some a, dead := st != "ok" }, s!"{st} type={t}" ++ (if a.exc then " exc" else ""))
   | "wfasta" :: _ =>
     if s.unmodelled then (s, "unmodelled") else (s, s!"ok hex={hexOrDash (writeFasta s.sq)}")
   | "roundtrip" :: _ =>
